@@ -126,7 +126,9 @@ type Log struct {
 	OpDigest uint64 // events of the caller and the oracle only (no device-level events)
 	Trace    bool
 	Lines    []string
-	dev      bool
+	// MuteDevLines: device-level events stay in the digests but get no trace line.
+	MuteDevLines bool
+	dev          bool
 }
 
 func (l *Log) fold(x uint64) {
@@ -156,7 +158,7 @@ func (l *Log) Ev(kind string, a ...int64) {
 	for _, x := range a {
 		l.fold(uint64(x) + 0x9e37)
 	}
-	if l.Trace {
+	if l.Trace && !(l.dev && l.MuteDevLines) {
 		var sb strings.Builder
 		fmt.Fprintf(&sb, "%d %s", l.Seq, kind)
 		for _, x := range a {
